@@ -7,7 +7,7 @@ from __future__ import annotations
 
 def _snapshot(p):
     from specs import snapshot, misc, fsutil
-    return ([snapshot.head_unit(p), snapshot.flatten_unit(p), snapshot.stream_unit(p), snapshot.producer_start_unit(p), snapshot.producer_unit(p),
+    return ([snapshot.head_unit(p), snapshot.flatten_unit(p), snapshot.stream_unit(p), snapshot.producer_start_unit(p), snapshot.locals_unit(p), snapshot.producer_unit(p),
              snapshot.worker_unit(p), snapshot.chunk_done_unit(p), snapshot.run_unit(p), snapshot.tail_unit(p), misc.chunkify_unit(p)]
             + fsutil.units(p) + misc.metadata_units(p))
 
@@ -89,7 +89,7 @@ FAMILIES = {'snapshot': _snapshot, 'restore': _restore, 'load': _load, 'gc': _gc
 DEPENDS = {
     'C01': ('snapshot', 'restore', 'load', 'loc', 'adapters'),
     'C02': ('snapshot', 'gc', 'load', 'loc', 'listing'),
-    'C03': ('snapshot', 'gc', 'load', 'loc', 'local', 'listing'),
+    'C03': ('snapshot', 'gc', 'load', 'loc', 'local', 'listing', 's3', 'b2'),
     'C04': ('restore', 'load', 'adapters', 'process'),
     'C05': ('snapshot', 'keys', 'adapters', 'loc', 'load'),
     'C06': ('keys', 'load', 'gc', 'adapters', 'snapshot'),
